@@ -69,6 +69,12 @@ func TOTPCodes(secret string) map[string]bool {
 	return out
 }
 
+// TOTPOK reports whether a submitted code is one of the currently acceptable codes of secret; the code
+// is its digits, surrounding whitespace is not part of it (the otp library trims it).
+func TOTPOK(secret, submitted string) bool {
+	return secret != "" && TOTPCodes(secret)[strings.TrimSpace(submitted)]
+}
+
 // TOTPNow is the current code of secret.
 func TOTPNow(secret string) string { return TOTPAt(secret, 0) }
 
